@@ -64,6 +64,22 @@ func c11KeyConfigs() []c11key {
 			sp.SetSPKeyStore(&saml2.KeyStore{Signer: w.SPEnc.Key.Signer, Cert: w.SPEnc.DER})
 			return w.SPEnc
 		}},
+		{"both-different-retired-field-expired", func(w *World, sp *saml2.SAMLServiceProvider) *sim.Cert {
+			// the deprecated field still holds the retired pair, whose certificate has expired; the setter holds the
+			// current pair, which is the one that decrypts and the one whose validity counts
+			retired := sim.Mint(sim.K("spenc2"), w.Now.AddDate(-3, 0, 0), w.Now.AddDate(-1, 0, 0), 41)
+			sp.SPKeyStore = &RSAKeyStore{C: retired}
+			sp.SetSPKeyStore(&saml2.KeyStore{Signer: w.SPEnc.Key.Signer, Cert: w.SPEnc.DER})
+			sp.ValidateEncryptionCert = true
+			return w.SPEnc
+		}},
+		{"both-different-future-field-tlscert", func(w *World, sp *saml2.SAMLServiceProvider) *sim.Cert {
+			next := sim.Mint(sim.K("spenc2"), w.Now.AddDate(1, 0, 0), w.Now.AddDate(3, 0, 0), 42)
+			sp.SPKeyStore = dsig.TLSCertKeyStore(tls.Certificate{Certificate: [][]byte{next.DER}, PrivateKey: next.Key.RSA()})
+			sp.SetSPKeyStore(&saml2.KeyStore{Signer: w.SPEnc.Key.Signer, Cert: w.SPEnc.DER})
+			sp.ValidateEncryptionCert = true
+			return w.SPEnc
+		}},
 		{"setter+signing-field", func(w *World, sp *saml2.SAMLServiceProvider) *sim.Cert {
 			sp.SetSPKeyStore(&saml2.KeyStore{Signer: w.SPEnc.Key.Signer, Cert: w.SPEnc.DER})
 			sp.SPSigningKeyStore = &RSAKeyStore{C: sim.Wide(sim.K("spsign"), w.Now)}
@@ -77,10 +93,40 @@ type c11combo struct {
 	digest    *string
 }
 
-func c11Combos() []c11combo {
+// c11Advertised asks the library itself which data-encryption algorithms an SP with an
+// encryption key publishes (both metadata variants, both key APIs), in order of first appearance.
+func c11Advertised(w *World) []string {
+	var out []string
+	seen := map[string]bool{}
+	for i := 0; i < 2; i++ {
+		sp, _, _ := NewSP(w.Now, w.IdP[0])
+		if i == 0 {
+			sp.SPKeyStore = &RSAKeyStore{C: w.SPEnc}
+		} else {
+			sp.SetSPKeyStore(&saml2.KeyStore{Signer: w.SPEnc.Key.Signer, Cert: w.SPEnc.DER})
+		}
+		m1, _ := sp.Metadata()
+		m2, _ := sp.MetadataWithSLO(0)
+		for _, m := range []*types.EntityDescriptor{m1, m2} {
+			if m == nil {
+				continue
+			}
+			_, methods, _ := descriptorCert(m, "encryption")
+			for _, a := range methods {
+				if !seen[a] {
+					seen[a] = true
+					out = append(out, a)
+				}
+			}
+		}
+	}
+	return out
+}
+
+func c11Combos(algs []string) []c11combo {
 	var out []c11combo
 	digs := []*string{nil, sim.S(""), sim.S(sim.DigSHA1), sim.S(sim.DigSHA256), sim.S(sim.DigSHA512)}
-	for _, d := range sim.DataAlgs {
+	for _, d := range algs {
 		for _, k := range []string{sim.RSAOAEP, sim.RSAOAEP11} {
 			for _, g := range digs {
 				out = append(out, c11combo{d, k, g})
@@ -93,7 +139,26 @@ func c11Combos() []c11combo {
 
 func runC11(c *mon.Ctx) {
 	w := NewWorld(BaseTime(c.Seed))
-	combos := c11Combos()
+	advertised := c11Advertised(w)
+	if c.Shard == 0 {
+		c.Count("advertised_algorithms", int64(len(advertised)))
+	}
+	var usable []string
+	for _, a := range advertised {
+		if sim.KnownDataAlg(a) {
+			usable = append(usable, a)
+		} else if cs := c.Begin("advertised", len(usable)); cs != nil {
+			cs.Desc("advertised algorithm %s", a)
+			cs.Violation("advertised-method-unknown", "the metadata advertises %q, which is not an XML-Enc block algorithm the harness can encrypt with", a)
+		}
+	}
+	if len(usable) == 0 {
+		if cs := c.Begin("advertised", 0); cs != nil {
+			cs.Inconclusive("no-advertised-algorithm")
+		}
+		return
+	}
+	combos := c11Combos(usable)
 	tlsCert := &tls.Certificate{Certificate: [][]byte{w.SPEnc.DER}, PrivateKey: w.SPEnc.Key.RSA()}
 
 	// ---- direct round trips ----
@@ -240,6 +305,7 @@ func runC11(c *mon.Ctx) {
 		st.TextTricks = 0
 		mkSP := func() (*saml2.SAMLServiceProvider, *sim.Cert) {
 			sp, _, _ := NewSP(w.Now, signer)
+			sp.ValidateEncryptionCert = (k/len(kcs))%2 == 1 // every certificate that decrypts here is inside its validity period
 			to := kc.mk(w, sp)
 			return sp, to
 		}
